@@ -5,7 +5,7 @@ import os
 
 from ..core.absint import Interp, alternatives, pretty
 from ..core.analysis import Analysis, facts
-from ..core.astutil import deref, enclosing_trys, handler_catches
+from ..core.astutil import deref, enclosing_trys, handler_catches, path_templates
 from ..core.forms import (DIMLESS, NotPolynomial, Poly, Rat, U, UnitError, canon, expand,
                           to_rat, unit_of, ustr)
 from ..core.pyrepo import Repo, calls_in, dotted, norm_stmt
@@ -550,19 +550,61 @@ def _r5(ctx, repo, A, pm):
         if isinstance(st, ast.Assign) and len(st.targets) == 1 and isinstance(st.targets[0], ast.Name) \
                 and isinstance(st.value, ast.Call) and dotted(st.value.func) in ("bcat", "cat") \
                 and st.value.args:
-            t = norm_stmt(deref(f.node, st.value.args[0]))
+            tmpls = path_templates(repo, f, st.value.args[0])
             for suf in ("_max", "_crit"):
-                if f"'{suf}'" in t:
+                if tmpls and all(t.endswith(suf) for t in tmpls):
                     thr[st.targets[0].id] = suf
+
+    def converter(call):
+        """call: `g(x)` where g is a function of this module that converts its
+        argument with float(): None if a non-number makes g return None, else why not."""
+        g = repo.func(pm, dotted(call.func) or "", required=False)
+        if g is None or not g.node.args.args:
+            return "?"
+        par = g.node.args.args[0].arg
+        fl = [c for c in ast.walk(g.node) if isinstance(c, ast.Call) and dotted(c.func) == "float"
+              and c.args and dotted(c.args[0]) == par]
+        if not fl:
+            return "?"
+        for c in fl:
+            st_ = next(s_ for s_ in ast.walk(g.node) if isinstance(s_, ast.stmt)
+                       and any(x is c for x in ast.walk(s_))
+                       and not isinstance(s_, (ast.Try, ast.If, ast.For, ast.While, ast.With,
+                                               ast.FunctionDef)))
+            hs = [h for t_ in reversed(enclosing_trys(g.node, st_)) for h in t_.handlers
+                  if handler_catches(h, ["ValueError"])]
+            if not hs:
+                return "no ValueError handler: the whole call fails"
+            h = hs[0]
+            if any(isinstance(x, ast.Raise) for b in h.body for x in ast.walk(b)):
+                return "the ValueError handler raises: the whole call fails"
+            rets = [x for b in h.body for x in ast.walk(b) if isinstance(x, ast.Return)]
+            if not rets or not all(r.value is None or (isinstance(r.value, ast.Constant)
+                                                       and r.value.value is None) for r in rets):
+                return "the ValueError handler does not answer None"
+        return None
+
     n = 0
     for st in ast.walk(f.node):
         if not (isinstance(st, ast.Assign) and len(st.targets) == 1
                 and dotted(st.targets[0]) in thr):
             continue
+        v = dotted(st.targets[0])
+        if isinstance(st.value, ast.Call) and any(dotted(a) == v for a in st.value.args):
+            why = converter(st.value)
+            if why != "?":
+                n += 1
+                key = f"threshold-not-a-number:{v}({thr[v]})"
+                if why is None:
+                    ctx.ok("C19.R5", key, sample=f"{dotted(st.value.func)}({v}): float() fails "
+                                                 f"-> None, sensor kept")
+                else:
+                    ctx.fail("C19.R5", key, f.file, st.lineno, f.qual,
+                             f"a non-numeric {thr[v]} file: {why} (in {dotted(st.value.func)})")
+                continue
         if not any(isinstance(c, ast.Call) and dotted(c.func) == "float"
                    for c in ast.walk(st.value)):
             continue
-        v = dotted(st.targets[0])
         n += 1
         key = f"threshold-not-a-number:{v}({thr[v]})"
         trys = enclosing_trys(f.node, st)
